@@ -1502,6 +1502,8 @@ def check_C08(v, tier, seed):
         for c in r.cases:
             msg = None
             cls = c.meta.get("class")
+            if cls == "faulted":
+                continue    # lookups under (injected) descriptor exhaustion: tie only; what they leave behind is judged below
             created = sum(1 for call, resp in c.events
                           if call[0] in ("fsmount", "open_tree") and resp[0] == "fd") + \
                 sum(1 for call, resp in c.events
@@ -1525,9 +1527,34 @@ def check_C08(v, tier, seed):
                 facts.update({"kind": "oracle", "oracle": msg})
                 v.fail(facts, case_replay(c, msg))
                 concrete.add((r.name, c.id))
+    # history independence: the matrix is run before and after a series of lookups that failed under descriptor exhaustion
+    # (at every second system call); the same lookup on the same kind of handle answers the same
+    stable = 0
+    for r in runs:
+        seen = {}
+        for c in r.cases:
+            if c.meta.get("pass") in ("first", "again"):
+                seen.setdefault((c.meta.get("handle"), c.cfg.get("hemu"), tuple(c.op)), {})[c.meta.get("pass")] = c
+        for key, d in seen.items():
+            a, b = d.get("first"), d.get("again")
+            if a is None or b is None:
+                continue
+            ra = a.res[:3] if a.res[:1] == ["err"] else a.res[:2]
+            rb = b.res[:3] if b.res[:1] == ["err"] else b.res[:2]
+            if ra == rb:
+                stable += 1
+            elif (r.name, b.id) not in concrete:
+                facts = proc_facts(b)
+                msg = (f"the same lookup answered {' '.join(ra)} before and {' '.join(rb)} after other lookups of the process had failed "
+                       f"under descriptor exhaustion: a failure was remembered")
+                facts.update({"kind": "oracle", "oracle": msg})
+                v.fail(facts, case_replay(b, msg, {"before": a.raw, "history": "cases with pass=exhausted of the same run, in order"}))
+                concrete.add((r.name, b.id))
     broken = generic_tie(v, runs, concrete)
     cov = coverage_of(runs, nontrivial=lambda c: True,
-                      key=lambda c: (c.meta.get("env"), c.meta.get("handle"), c.cfg.get("hemu"), tuple(c.op)))
+                      key=lambda c: (c.meta.get("env"), c.meta.get("handle"), c.cfg.get("hemu"), tuple(c.op), c.meta.get("pass"),
+                                     repr(c.extra.get("fault"))))
+    cov["lookups_stable_across_failed_lookups"] = stable
     cov["rule"] = ("each of {default, hidepid=1, hidepid=2, hidepid=ptraceable, subset=pid, subset=pid+hidepid=2} is mounted as /proc "
                    "in a fresh mount+pid namespace, and the matrix handle constructor x resolver x base x {existing, missing, "
                    "masked-but-existing} sub-path is run as root, as the root of a user namespace that owns its mount namespace but "
@@ -1568,7 +1595,7 @@ def check_C15(v, tier, seed):
                 # the sysctl cannot be read: a /proc mounted subset=pid has no sys/ directory, and the unprivileged
                 # callers of the matrix cannot mount a procfs of their own.  The rule is in force all the same.
                 try:
-                    runs.append(Run("C15-psl1-subsetpid", ["c15"],
+                    runs.append(Run("C15-psl1-subsetpid", ["c15", "--cold"],
                                     prefix=["unshare", "-m", "-p", "-f", "sh", "-c",
                                             'mount -t proc -o subset=pid proc /proc && exec "$@"', "sh"]))
                 except vlib.BuildError as e:
@@ -1674,6 +1701,20 @@ def check_C18(v, tier, seed):
             bad("Python binding declares an integer typedef with the wrong width", f"{name} declared {cls}, ABI {real}")
     if ren.get("CProcfsBase") != "pathrs_proc_base_t" or ren.get("CError") != "pathrs_error_t":
         bad("cbindgen renames changed", str(ren))
+    # the named constants the bindings export (PROC_SELF = libpathrs_so.PATHRS_PROC_SELF, pathrsProcSelf = C.PATHRS_PROC_SELF,
+    # case ProcBaseSelf: return pathrsProcSelf): each denotes the header constant of the same name
+    bynorm = {A.norm_const(n): n for n in set(renums) | set(henums)}
+    aliases = list(A.ALIASES) + [("go-switch", "PROC_" + pub[len("ProcBase"):], A.GO_PRIVATE.get(priv, "?" + priv)) for pub, priv in A.GO_SWITCH]
+    seen_alias = set()
+    for binding, alias, const in aliases:
+        if (binding, alias, const) in seen_alias:
+            continue
+        seen_alias.add((binding, alias, const))
+        items.append(f"{binding} const {alias}")
+        want = bynorm.get(A.norm_const(alias))
+        if want != const:
+            bad("a binding's named constant denotes another header constant than its name says",
+                f"{binding}: {alias} = {const} (value {henums.get(const)}), the header constant of that name is {want} (value {henums.get(want)})")
     extra = {}
     if tier == "thorough":
         extra = thorough_C18(v, hfns, henums)
@@ -1916,7 +1957,10 @@ def main(argv):
                {"why": "the harness (libpathrs with verification hooks) no longer builds from /repo's working tree",
                 "broken": ["harness build"], "log": str(e)}, concrete=False)
         cov.update({"obligations": 1, "discharged": 0, "evaluations": 1, "distinct_nontrivial": 0})
-        return v.finish(evidence)
+        if prop != "C18":
+            return v.finish(evidence)
+        # (C18 reads the sources, not the harness: go on and name what differs — the harness itself links against every
+        # function the header declares, so a lost export is one way for it not to build)
 
     # 1b. translator (C18): regenerate the model from the sources
     if prop in PRE:
